@@ -327,6 +327,60 @@ fn check_ds(c: &DsCase, obs: &mut Obs) {
         }
     }
     cmp(&back, &top, &c.set, tsname, obs);
+    // the same stream through the token reader with the Interpreted value strategy (the object
+    // reader above uses Preserved): top-level text must come out the same
+    if !obs.failed() {
+        use dicom_parser::dataset::read::{DataSetReader, DataSetReaderOptions, ValueReadStrategy};
+        use dicom_parser::dataset::DataToken;
+        if let Ok(r) = DataSetReader::new_with_ts_options(&out[..], &ts, DataSetReaderOptions::default().value_read(ValueReadStrategy::Interpreted)) {
+            let mut depth = 0i32;
+            let mut last: Option<(u16, u16)> = None;
+            let mut got: std::collections::HashMap<(u16, u16), Vec<String>> = Default::default();
+            let mut failed = None;
+            for t in r {
+                match t {
+                    Ok(DataToken::SequenceStart { .. }) | Ok(DataToken::PixelSequenceStart) => depth += 1,
+                    Ok(DataToken::SequenceEnd) => depth -= 1,
+                    Ok(DataToken::ElementHeader(h)) if depth == 0 => last = Some((h.tag.0, h.tag.1)),
+                    Ok(DataToken::PrimitiveValue(p)) if depth == 0 => {
+                        if let Some(tag) = last.take() {
+                            let v: Vec<String> = match &p {
+                                PrimitiveValue::Strs(s) => s.iter().map(|x| x.trim_end_matches([' ', '\0']).to_string()).collect(),
+                                PrimitiveValue::Str(s) => vec![s.trim_end_matches([' ', '\0']).to_string()],
+                                _ => continue,
+                            };
+                            got.insert(tag, v);
+                        }
+                    }
+                    Ok(_) => {}
+                    Err(e) => {
+                        failed = Some(e.to_string());
+                        break;
+                    }
+                }
+            }
+            if let Some(e) = failed {
+                obs.fail(format!("C10:written data set cannot be read with the Interpreted strategy:{}", c.set), format!("[{tsname}] {e}"));
+            } else {
+                for e in &top {
+                    if matches!(e.vr.as_str(), "UI" | "DA" | "CS" | "IS" | "AE" | "AS" | "DS" | "DT" | "TM" | "SQ") {
+                        continue;
+                    }
+                    let want: Vec<String> = match &e.v {
+                        Val::Strs(w) => w.iter().map(|x| x.trim_end().to_string()).collect(),
+                        Val::Str(w) => vec![w.trim_end().to_string()],
+                        _ => continue,
+                    };
+                    let g = got.get(&(e.g, e.e)).cloned().unwrap_or_default();
+                    let joined = |v: &[String]| v.join("\\");
+                    if joined(&g) != joined(&want) && !(want.iter().all(|x| x.is_empty()) && g.iter().all(|x| x.is_empty())) {
+                        obs.fail(format!("C10:text differs when read with the Interpreted strategy:{}:{}", c.set, e.vr), format!("[{tsname}] ({:04X},{:04X}): want {want:?} got {g:?}", e.g, e.e));
+                        break;
+                    }
+                }
+            }
+        }
+    }
     // the bytes of the default-repertoire VRs are plain ASCII regardless of the character set
     let parsed = refimpl::ds::parse_strict(&out, &refimpl::ds::ParseOpts { ts: _enc, sq_tags: Some(&refimpl::ds::sq_tags(&top)), require_even: true, require_ascending: false });
     if let Ok(p) = parsed {
